@@ -6,6 +6,12 @@ COMMON_TRUST = [
 ]
 CODEC_RULE = "every message type x decoding parameter (Prio3 Count/Sum/Histogram/SumVec with 2-5 aggregators, Poplar1 with several bit lengths incl. 0, Prio2, ping-pong, primitives): honest encodings from real protocol runs, truncations, extensions, single-byte mutations, every alphabet value in first/last byte, all strings of length <= 2-3 over {00,01,7f,80,fe,ff}, header extremes (level 0xFFFF, counts 2^32-1, unknown tags), random strings; non-trivial = every case (each is a decode of a distinct byte string);"
 PROPS = {
+    "C06": {
+        "modules": ["PrioProofs.Props.C06"],
+        "rule": "Poplar1 payloads (pairs of Field64 / Field255) with extreme and random values; bit lengths 1-5 (thorough 1-7): both parties evaluated at every prefix of every length in shuffled order against NoCache, HashMapCache and RingBufferCache of capacity 0,1,2,3,7; bit lengths 8,12,33,64: on-path, diverging-at-random-depth and random prefixes; error arguments; the model recomputes key generation and every evaluation from the recorded extend/convert table; non-trivial = all;",
+        "trusted": COMMON_TRUST + ["the PRGs (fixed-key AES / TurboSHAKE128 behind extend and convert) are parameters of the theorems and a recorded table in the correspondence run"],
+        "assumptions": ["payload types form commutative groups (C09 for Field64; Field255 via fiat-crypto trusted)"],
+    },
     "C07": {
         "modules": ["PrioProofs.Props.C07"],
         "rule": CODEC_RULE,
